@@ -25,6 +25,8 @@ GenStep ==
           a |-> [p |-> last.a[1], h |-> last.a[2], v |-> last.a[3]]]
     [] last.op = "Notation" ->
          [op |-> "G.Notation", depth |-> M, a |-> [id |-> last.a]]
+    [] last.op = "Geom" ->
+         [op |-> "G.Geom", depth |-> M, a |-> [id |-> last.a]]
     [] OTHER -> [op |-> "none", depth |-> M, a |-> <<>>]
 
 Emit == (depth > 0) => PrintT(ToJson(GenStep))
